@@ -115,6 +115,7 @@ fn worker(args: &[String]) -> i32 {
     }
     let mut violations = vec![];
     let mut listing = vec![];
+    let known = known_findings();
     let stdout = std::io::stdout();
     let mut idx = w;
     while idx < n {
@@ -131,7 +132,15 @@ fn worker(args: &[String]) -> i32 {
             listing.push((idx, rt.digest));
         }
         violations.extend(vs);
-        if violations.len() >= 3 {
+        // stop early only for violations that are not recorded known findings
+        let fresh = violations
+            .iter()
+            .filter(|v| {
+                let fp = format!("{:016x}", v.case.fingerprint());
+                !known.iter().any(|k| k.property == v.property && k.class == v.class && k.fingerprint == fp)
+            })
+            .count();
+        if fresh >= 3 {
             break;
         }
         idx += nw;
